@@ -88,8 +88,11 @@ def tokenOf (kind : String) (p : List UInt8) (hint : Option Nat) : Option Token 
 def visitorOf (k : HipKind) (e : Entry) : Option VisitorRow :=
   let k' := if k == .path then HipKind.str else k
   match findDe Gen.Visitors.deRows k' e with
-  | some ⟨_, _, .visitor _ id, _⟩ => findVisitor Gen.Visitors.visitors id
-  | _ => none
+  | some r =>
+    match r.target with
+    | .visitor _ id => findVisitor Gen.Visitors.visitors id
+    | _ => none
+  | none => none
 
 def showVisit (r : Except Err (List UInt8 × Bool)) (reserve : Option Nat) : String :=
   match r with
